@@ -996,6 +996,7 @@ def check_contract(ct, tier, seed, k_samples):
     tries = 0
     concolic_ok = 0
     samples = []
+    stub_exceeded = []
     if ct.opts.get('numeric_share') is False:
         k_samples = 0
     while accepted < k_samples and tries < k_samples * 40:
@@ -1008,6 +1009,11 @@ def check_contract(ct, tier, seed, k_samples):
         if len(samples) < 2:
             samples.append({k: (v if isinstance(v, (int, float, str)) else repr(v)) for k, v in ctx.draws.items()})
         if exc:
+            if 'StubInterfaceExceeded' in exc:
+                # the code under contract reached for something the contract's modular stand-in of its environment does not
+                # model: the contract cannot decide this code (undecided, exit 2) -- not a violation of the property
+                stub_exceeded.append(exc.splitlines()[0][:400])
+                continue
             num_fail.append({'clause': ct.opts.get('raise_clause', ct.name + '.no_exception'),
                              'draws': _jsonable(ctx.draws), 'exception': exc})
             continue
@@ -1067,6 +1073,9 @@ def check_contract(ct, tier, seed, k_samples):
                            'wd_assumed': [], 'assumed': [], 'skipped': 'concrete failure on the real code'}
     else:
         out['symbolic'] = run_symbolic(ct, tier)
+    if stub_exceeded:
+        out['symbolic'] = {'clauses': {}, 'paths': 0, 'errors': ['stand-in interface exceeded: ' + stub_exceeded[0]], 'solver_s': 0.0, 'samples': [],
+                           'wd_assumed': [], 'assumed': []}
     out['numeric'] = {'accepted': accepted, 'rejected': rejected, 'failures': num_fail[:10],
                       'concolic_agree': concolic_ok, 'encoder_mismatches': mismatches[:5],
                       'samples': samples}
